@@ -272,9 +272,20 @@ class Check:
         _TASKS = tasks
         _PARENT = self
         ctx = mp.get_context('fork')
+        tmo = float(os.environ.get('VERIF_TASK_TIMEOUT', '1500'))
         with ctx.Pool(min(jobs, max(1, len(tasks)))) as pool:
-            for res in pool.imap_unordered(_run_task, [(i, quick_ms) for i in range(len(tasks))], chunksize=1):
+            pending = [(i, pool.apply_async(_run_task, ((i, quick_ms),))) for i in range(len(tasks))]
+            t_start = time.time()
+            for i, ar in pending:
+                try:
+                    # the budget is per check run: a worker that died or hangs must never block the check forever
+                    res = ar.get(timeout=max(5.0, tmo - (time.time() - t_start)) if tmo else None)
+                except mp.TimeoutError:
+                    res = {'name': tasks[i][0], 'error': 'task did not finish within the task budget (%ds)' % tmo}
+                except Exception as e:  # worker crashed
+                    res = {'name': tasks[i][0], 'error': 'worker failed: %r' % (e,)}
                 self._merge(res)
+            pool.terminate()
 
     def _merge(self, res):
         if res.get('error'):
